@@ -37,6 +37,10 @@ def reply_mix(ctx, cfg, rounds=1, on_reply=None, tcp=True):
             else:
                 emit("ns", gen.ns_frame(e, e.sip, opts=b"\x01\x01" + e.cmac, dst_solicited=rng.random() < 0.5))
                 emit("ns", gen.ns_frame(e, e.sip))
+                # unicast solicitation to one handled address for another one
+                others = [a for a in (cfg.selfips or []) if len(a) == 16 and a != e.sip]
+                tgt = rng.choice(others) if others else gen.rnd_ip6(rng)
+                emit("ns", gen.ns_frame(e, tgt, opts=b"\x01\x01" + e.cmac))
             emit("echo", e.echo(rng.getrandbits(16), rng.getrandbits(16), bytes(rng.getrandbits(8) for _x in range(rng.choice([0, 1, 2, 3, 8, 56, 57, 1000, 1471, 1472])))))
             for fl in (SYN, SYN | ECE, SYN | CWR, SYN | PSH, SYN | URG, SYN | PSH | URG | ECE):
                 emit("syn", e.tcp(gen.rnd_port(rng), gen.rnd_port(rng), rng.choice([0, 1, 0xFFFFFFFF, rng.getrandbits(32)]), rng.getrandbits(32), fl))
